@@ -2,3 +2,4 @@ SPECIFICATION Spec
 INVARIANTS GraphIso WrittenOnce TamperTotal EmitCases
 CHECK_DEADLOCK FALSE
 CONSTANT MaxN = 3
+CONSTANT Big = {}
